@@ -1670,3 +1670,37 @@ mutant("c05-conn-remove-skipped-for-one-reason", "C05", "C05-D8", "server_socket
        "		s.nsp.remove(s)\n		s.conn.remove(s)\n", "		s.nsp.remove(s)\n		if reason != ReasonServerNamespaceDisconnect {\n			s.conn.remove(s)\n		}\n")
 mutant("c05-recovery-log-drops-namespace", "C05", "C05-D8", "adapter/adapter_session_aware.go",
        "			Header:    header,", "			Header:    &parser.PacketHeader{Type: header.Type, ID: header.ID},")
+
+# ---------------------------------------------------------------- C17 / C11 (round 2)
+mutant("c17-session-kept-after-transport-close", "C17", "C17-D5", "engine.io/server_socket.go",
+       """		defer s.onClose(s.id)
+
+		defer s.getCallbacks().OnClose(reason, err)
+
+		if reason != ReasonTransportClose && reason != ReasonTransportError {""",
+       """		defer s.getCallbacks().OnClose(reason, err)
+
+		if reason != ReasonTransportClose && reason != ReasonTransportError {
+			defer s.onClose(s.id)""")
+mutant("c11-body-read-with-single-read", "C11", "C11-D6", "engine.io/parser/packet.go",
+       "	_, err := io.ReadFull(r, buf)", "	_, err := r.Read(buf)")
+mutant("c11-header-readfull-error-ignored", "C11", "C11-D6", "engine.io/transport/webtransport/packet.go",
+       """			_, err = io.ReadFull(r, header[:])
+			if err != nil {
+				return nil, err
+			}
+			expectedLen = int(binary.BigEndian.Uint16(header[:]))""",
+       """			io.ReadFull(r, header[:])
+			expectedLen = int(binary.BigEndian.Uint16(header[:]))""")
+mutant("c10-shared-parser", "C10", "C10-D9", "parser/json/parser.go",
+       """	return func() parser.Parser {
+		return &Parser{
+			maxAttachments: maxAttachments,
+			json:           json,
+		}
+	}""",
+       """	p := &Parser{
+		maxAttachments: maxAttachments,
+		json:           json,
+	}
+	return func() parser.Parser { return p }""")
